@@ -200,6 +200,8 @@ class Mode:
         r = {"name": name, "status": status, "backend": backend, "secs": round(secs, 4)}
         r.update(kw)
         self.results.append(r)
+        if status == "failed":
+            self._nfailed = getattr(self, "_nfailed", 0) + 1
         return r
 
     def eq(self, name, got, exp, scale=None):
@@ -243,13 +245,20 @@ class Mode:
                     return self._rec(name, "discharged", "z3", dt, detail="path infeasible", vacuous=True)
                 from . import subst
 
-                diff, nsub = subst.reduce_under(alg.v_sub(vg, ve), fs)
+                if "subst" not in cache:
+                    cache["subst"] = subst.solve_path(fs)
+                diff, nsub = subst.reduce_under(alg.v_sub(vg, ve), fs, cache["subst"])
                 if nsub and alg.v_equal(diff, alg.Value({})):
                     return self._rec(name, "discharged", "polyid+path-equations", time.time() - t, detail="%d equation(s) of the path substituted" % nsub)
                 if r != "sat":
                     return self._rec(name, "undecided", "z3", dt, detail="values differ on a path whose feasibility is unknown")
                 concl = ("atom", alg.v_sub(vg, ve), "==")
                 real = None
+                if getattr(self, "_nfailed", 0) >= 40:
+                    # the contract is already refuted 40 times over in this task (each of those went through the full
+                    # analysis below): record the polyid verdict without further solver work
+                    return self._rec(name, "failed", "polyid", time.time() - t, cex={"env": cache.get("env") or model},
+                                     got=alg.fmt(vg, 8), exp=alg.fmt(ve, 8), detail="differs on a feasible path (analysis cut short after 40 refutations in this task)")
                 if cache.get("env") is not None and P.check_point(fs, concl, cache["env"]):
                     real = cache["env"]
                     P.LAST_DIFF[0] = 0.0
@@ -710,11 +719,11 @@ def _explore_harness(h, shape, M):
         npaths += 1
         if stack and sum(1 for r in allres if r["status"] == "failed") >= 40:
             break  # the contract is already refuted on the explored paths; further paths add nothing to the verdict
-        if stack and (npaths >= 1024 or (npaths >= 64 and time.time() - t_start > 45.0)):
+        if stack and (npaths >= 1024 or (npaths >= 8 and time.time() - t_start > 45.0)):
             # budget exhausted: what the explored paths established (including failed obligations) is kept, the rest
             # is reported as undecided - never as held
             allres.append({"name": "paths/all-explored", "status": "undecided", "backend": "z3", "secs": 0.0,
-                           "detail": "%d paths explored, %d alternatives left unexplored (budget: 64 paths, then 45 s / 1024 paths)" % (npaths, len(stack))})
+                           "detail": "%d paths explored, %d alternatives left unexplored (budget: 45 s once 8 paths are done, at most 1024 paths)" % (npaths, len(stack))})
             break
     M.results = allres
 
